@@ -87,6 +87,10 @@ func gen(t *rapid.T) Case {
 			c.Lon, c.Lat = projkit.GenPosition(t, c.Dst)
 			c.Src = projkit.GenDefFor(t, projkit.Opts{OnlyDatum: true, WithAxis: true, Projs: projkit.AllProjs}, c.Lon, c.Lat)
 		}
+		// proj4js 2.3.12 does not supply PROJ's defaults for parameters a definition leaves out (a tmerc without +k comes out
+		// as 1e30): it is no oracle for such texts, so the differential spells every parameter (the reference-formula cases
+		// and C08/C10/C20 do rely on the defaults)
+		c.Src.OmitDefaults, c.Dst.OmitDefaults = false, false
 		// the input in source coordinates is obtained from the WGS84 position with the code under test (it only has to
 		// be a point of the region; both implementations then get the same numbers)
 		if c.Src.Proj == "longlat" && (c.Src.Axis == "" || c.Src.Axis == "enu") {
@@ -151,7 +155,17 @@ func run(c Case) (v vkit.Verdict) {
 		if nb.Axis == "enu" {
 			nb.Axis = ""
 		}
-		if na.String() == nb.String() {
+		sameRef := na.String() == nb.String()
+		if !sameRef {
+			// spelled differently but the same reference (+pm=-0 against +pm=0, a default written out, ...): decided by the
+			// library's own Equal, whose soundness is C20's business (Equal references must map every position identically)
+			if pa, e1 := proj.Parse(c.Src.String()); e1 == nil {
+				if pb, e2 := proj.Parse(c.Dst.String()); e2 == nil && pa.Equal(pb, 3) {
+					sameRef = true
+				}
+			}
+		}
+		if sameRef {
 			// Equal references: Go short-circuits to the identity (exact), proj4js goes to WGS84 and back with the
 			// small-angle inverse Helmert (off by ~0.1 mm for 7-parameter datums); nothing to compare
 			v.Class("identical_definitions_skipped")
